@@ -219,6 +219,16 @@ pub fn check_run_opts(run: &Run, fresh: bool, retain: bool) -> C15Result {
         log: 0,
         max_live: 0,
     };
+    // in a quarter of the runs every shared range is formatted and iterated before any
+    // evaluator is built from it (a range is an input value: using it must not change it)
+    if run.steps.len() % 4 == 0 {
+        for b in &built {
+            for r in b.ranges.iter() {
+                let _ = crate::evalrun::guarded(|| (r.to_string(), r.card_pairs().len(), r.rank_pairs().len()));
+            }
+        }
+        *res.probes.entry("runs_with_ranges_formatted_before_use".into()).or_insert(0) += 1;
+    }
     // baseline BEFORE anything else exists
     let before: Vec<Vec<Out>> = run.specs.iter().map(|sp| alone_inproc(&built[sp.scen], sp)).collect();
     let mut w = World::with_built(built.clone(), &run.specs, run.execs);
@@ -426,10 +436,52 @@ fn gen_gap_case(seed: u64) -> Case {
     Case { run, res, sample, retain: false }
 }
 
+/// Crowd case: thousands of tiny evaluators alive at once, created in one order
+/// and stepped (hence finished and dropped) in another: per-instance tables with a
+/// fixed number of slots, instance counters, LIFO/FIFO assumptions.
+fn gen_crowd_case(seed: u64) -> Case {
+    let mut rng = Rng::new(seed);
+    let nscen = 3usize;
+    let mut scens = vec![];
+    for _ in 0..nscen {
+        let flop = gen_flop(&mut rng);
+        let k = rng.range(1, 2) as usize;
+        let players = if rng.chance(1, 2) { vec![] } else { vec![RangeRecipe::simple(gen_combos(&mut rng, k, false).into_iter().map(|c| (c.0, c.1, 1.0f32.to_bits())).collect())] };
+        scens.push(Scenario { flop, players });
+    }
+    let e = *rng.pick(&[300usize, 1000, 2100, 4200]);
+    let mut specs = vec![];
+    for _ in 0..e {
+        let fi = rng.usize_below(NPOS - 3);
+        specs.push(TaskSpec { scen: rng.usize_below(nscen), scope: Some((pos_from_index(fi), pos_from_index(fi + rng.range(1, 3) as usize))), pre: vec![], extra_polls: 0 });
+    }
+    // every evaluator is created first (one step each, in index order), then they are
+    // drained in a shuffled order
+    let mut steps: Vec<Step> = (0..e).map(|i| Step { task: i as u16, exec: INLINE, op: Op::Next }).collect();
+    let mut order: Vec<usize> = (0..e).collect();
+    if rng.chance(1, 2) {
+        order.reverse();
+    } else {
+        rng.shuffle(&mut order);
+    }
+    for i in order {
+        steps.push(Step { task: i as u16, exec: INLINE, op: Op::Drain });
+    }
+    let run = Run { scens: scens.clone(), specs, steps, execs: 0 };
+    let res = check_run(&run, false);
+    let sample = json!({"crowd_case": true, "evaluators_alive_at_once": e});
+    Case { run, res, sample, retain: false }
+}
+
 fn gen_case(seed: u64, thorough: bool, fresh: bool) -> Case {
     let mut rng = Rng::new(seed);
     if !fresh && rng.chance(1, 40) {
         return gen_retention_case(rng.next_u64());
+    }
+    if !fresh && rng.chance(1, 60) {
+        let mut c = gen_crowd_case(rng.next_u64());
+        *c.res.probes.entry("crowd_runs_300_to_4200_live_evaluators".into()).or_insert(0) += 1;
+        return c;
     }
     if !fresh && rng.chance(1, 10) {
         let mut c = gen_gap_case(rng.next_u64());
